@@ -181,6 +181,7 @@ pub struct ScriptStream {
     projection: Option<Vec<usize>>,
     filters: Vec<Arc<dyn PhysicalExpr>>,
     endless: Option<Vec<crate::data::Row>>,
+    filler: Option<(i64, i64, u64, i64)>,
     last_step: u64,
     in_step: u64,
     view: bool,
@@ -203,7 +204,7 @@ impl ScriptStream {
         filters: Vec<Arc<dyn PhysicalExpr>>,
         view: bool,
     ) -> Self {
-        ScriptStream { schema, script: script.into_iter(), part, stats, sleeping: None, stalled: false, done: false, projection, filters, endless: None, last_step: 0, in_step: 0, view }
+        ScriptStream { schema, script: script.into_iter(), part, stats, sleeping: None, stalled: false, done: false, projection, filters, endless: None, filler: None, last_step: 0, in_step: 0, view }
     }
 }
 
@@ -230,7 +231,27 @@ impl Stream for ScriptStream {
                     Poll::Ready(()) => self.sleeping = None,
                 }
             }
+            if let Some((base, stride, n, counter)) = self.filler {
+                // fresh rows with ever increasing keys: the input "continues"
+                let rows: Vec<crate::data::Row> = (0..n as i64)
+                    .map(|i| crate::data::Row {
+                        id: crate::data::FILLER_ID_BASE + self.part as i64 * 100_000 + counter + i,
+                        k: Some((base + stride * (counter + i)) as i32),
+                        s: Some("FILL".to_string()),
+                        // two thirds of the filler rows (pseudo-randomly, so that no partitioning can
+                        // align with the pattern) carry a large value, so that filters and other
+                        // value-dependent paths keep seeing traffic on every partition
+                        v: if dst_common::rng::splitmix(17, (counter + i) as u64) % 3 != 0 { Some(1_000_000 + counter + i) } else { None },
+                    })
+                    .collect();
+                self.filler = Some((base, stride, n, counter + n as i64));
+                self.endless = Some(rows);
+                // fall through to the endless branch below for this one batch, then come back here
+            }
             if let Some(rows) = self.endless.clone() {
+                if self.filler.is_some() {
+                    self.endless = None;
+                }
                 let now = sim::steps();
                 if now != self.last_step {
                     self.last_step = now;
@@ -273,6 +294,11 @@ impl Stream for ScriptStream {
                 Some(Step::Endless(rows)) => {
                     sim::probe("probe.endless_input_started");
                     self.endless = Some(rows);
+                    continue;
+                }
+                Some(Step::Filler { base, stride, rows }) => {
+                    sim::probe("probe.endless_input_started");
+                    self.filler = Some((base, stride, rows, 0));
                     continue;
                 }
                 None => {
